@@ -374,6 +374,32 @@ def r12_6(ctx: Ctx, rule: str = "R12.6") -> None:
     ctx.floor(rule, n, 2, "Worker.extract call sites")
 
 
+def r12_7(ctx: Ctx, rule: str = "R12.7") -> None:
+    """no write through a read session: the functions that hand a source to Worker.archive (write, _writef: every public write call ends
+    in one of them) leave with an error when the archive was opened with mode 'r' - a guard on the mode whose failing outcome raises
+    dominates the registration of the member.  Without it writestr() on `SevenZipFile(open(p, 'r+b'), 'r')` writes compressed data over
+    the packed streams."""
+    n = 0
+    for name in ("write", "_writef"):
+        f = shared.szf(ctx, name)
+        cfg = cfg_of(f.node)
+        arch = [c for c in q.calls(f) if "py7zr:Worker.archive" in shared.targets_of(ctx, f, c)]
+        for a in arch:
+            n += 1
+            an = q.node_for(f, a)
+            ok = False
+            for t in cfg.nodes:
+                if t.kind != "test" or not cfg.dominates(t, an) or "mode" not in norm(t.ast):
+                    continue
+                for e in t.succ:
+                    if e.kind in ("true", "false") and q.branch_always_raises(cfg, e) and not cfg.reaches(e, an):
+                        ok = True
+            ctx.check(ok, rule, f, a, f"{name}: refused unless the archive was opened for writing",
+                      f"{name} hands a source to Worker.archive whatever the mode: on an object opened with 'r' over a writable handle the call changes the member list and "
+                      "writes compressed data over the packed streams and the header of the archive", construct=f"{name} without mode guard")
+    ctx.floor(rule, n, 2, "Worker.archive calls in write/_writef")
+
+
 def run(ctx: Ctx) -> None:
     from . import c06 as _c06x
     _c06x.dispatch_forwards_skip(ctx, "R12.4")
@@ -384,3 +410,4 @@ def run(ctx: Ctx) -> None:
     r12_3(ctx)
     r12_5(ctx, closure)
     r12_6(ctx)
+    r12_7(ctx)
